@@ -163,7 +163,14 @@ def main():
         A = onp.array([float(rng.randint(-3, 3)) for _ in range(n)]).reshape(shape)
         g = onp.array([float(rng.randint(-3, 3)) for _ in range(len(sigma))]).reshape(onp.shape(sel))
         v = onp.array([float(rng.randint(-3, 3)) for _ in range(n)]).reshape(shape)
-        case = {"n": n, "shape": list(shape), "index": enc_idx(idx), "sigma": sigma,
+        parts_ = idx if isinstance(idx, tuple) else (idx,)
+        basic = None
+        if all(p_ is Ellipsis or p_ is None or isinstance(p_, slice) or (isinstance(p_, int) and not isinstance(p_, bool)) for p_ in parts_) \
+                and sum(1 for p_ in parts_ if p_ is Ellipsis) <= 1:
+            basic = [["ell"] if p_ is Ellipsis else ["new"] if p_ is None else ["int", int(p_)] if isinstance(p_, int)
+                     else ["slice", p_.start, p_.stop, 1 if p_.step is None else p_.step] for p_ in parts_]
+            dist("basic-index-expression")
+        case = {"n": n, "shape": list(shape), "index": enc_idx(idx), "sigma": sigma, "basic": basic,
                 "g": [int(t) for t in g.ravel()], "v": [int(t) for t in v.ravel()]}
         try:
             vj = make_vjp(lambda a: a[idx])(A)[0](g if onp.shape(sel) else float(g))
